@@ -36,7 +36,7 @@ F32 = np.float32
 @register
 class MMSTH(Harness):
     ENV = "MMST"
-    QUICK = ["MMST", "MMST@sym", "MMST@1", "MMST@2"]     # MMST@sym: hand-built symbolic instance (all graphs / groupings), see _sym_instance
+    QUICK = ["MMST", "MMST@sym", "MMST@1", "MMST@2", "MMST@30", "MMST@31"]     # MMST@sym: hand-built symbolic instance (all graphs / groupings), see _sym_instance
     THOROUGH = ["MMST@3", "MMST@4", "MMST@5", "MMST@6"]
     INVALID = "ignore"
     TIME_LIMIT = True
@@ -58,7 +58,7 @@ class MMSTH(Harness):
     # ------------------------------------------------------------------ instance
     def _instance(self):
         import jax
-        i = int(self.cfg.partition("@")[2] or 0)
+        i = int(self.cfg.partition("@")[2] or 0) % 30      # 'MMST@3<k>' = three-agent generator, instance k (envs/configs.py)
         seed = int(os.environ.get("VERIF_SEED", "0"))
         st, ts = jax.jit(self.env.reset)(jax.random.PRNGKey(seed + i))
         return jax.tree_util.tree_map(np.asarray, st), jax.tree_util.tree_map(np.asarray, ts)
@@ -330,7 +330,10 @@ class MMSTH(Harness):
             for b in range(a):
                 both = legal[a] & legal[b] & (x[a] == x[b])
                 first = ~pick(on0[a], x[a], default=X.FALSE) & ~pick(on0[b], x[b], default=X.FALSE)
-                ob.append((f"tie-break agent{b}/agent{a}: at least one of two agents naming the same node moves", both.implies(moved[a] | moved[b])))
+                # with a third agent naming the same node the winner may be that third one (first written for two agents; met as a
+                # false alarm when three-agent instances were added)
+                others = any_([legal[c] & (x[c] == x[a]) for c in range(A_) if c not in (a, b)]) if A_ > 2 else X.FALSE
+                ob.append((f"tie-break agent{b}/agent{a}: at least one of two agents naming the same node moves", (both & ~others).implies(moved[a] | moved[b])))
                 ob.append((f"tie-break agent{b}/agent{a}: a node new to both is entered by exactly one of them", (both & first).implies(~(moved[a] & moved[b]))))
         # caches as functions of the raw arrays of S'
         adj, typ = vs(ns.adj_matrix), vs(ns.node_types)
